@@ -220,3 +220,68 @@ Section Exec.
   Definition filtered_index_exec (d : domain) (bs : list (list proposal)) : list session * bool :=
     indexed_sessions d (map (digest H d) (filter nonempty_batch bs)) 0 bs.
 End Exec.
+
+(* ---------------------------------------------------------------------------------------- *)
+(* Histories on LONG-LIVED digest objects.
+   chains/evm/calls/contracts/bridge/bridge.go  BridgeContract.ProposalsHash
+     chainID, err := c.client.ChainID(context.Background())     one RPC per request
+     if err != nil { return []byte{}, err }
+     return chains.ProposalsHash(proposals, chainID.Int64(), c.ContractAddress().Hex(), bridgeVersion)
+   chains/substrate/pallet/pallet.go  Pallet.ProposalsHash      no RPC: the chain id is held by the client
+   A relayer builds one such object per destination and uses it for every batch; nothing is kept between
+   two requests.  A request names the domain of its object (the REAL chain id of the endpoint, the
+   contract the object was built for), its batch, and whether the chain-id RPC fails while it is served. *)
+
+Inductive answer :=
+| ADigest (d : list N)      (* a value came back without an error: it is handed to threshold signing *)
+| AErr                      (* an error came back: nothing is handed to signing *)
+| APanic.                   (* the request ended in a Go panic *)
+
+(* SPECIFICATION of one answer; [want] = the EIP-712 digest for the object's real domain and the batch of
+   THIS request.  (A panic is rejected for the reason given at [exec_ok].) *)
+Definition answer_ok (want : list N) (a : answer) : bool :=
+  match a with
+  | ADigest d => bytes_eqb want d
+  | AErr => true
+  | APanic => false
+  end.
+
+(* SPECIFICATION of a history: every answer is judged on its own request - whatever was asked, answered or
+   failed before *)
+Definition hist_ok (h : list (list N * answer)) : bool :=
+  forallb (fun x => answer_ok (fst x) (snd x)) h.
+
+Record request := { q_dom : domain; q_batch : list proposal; q_rpc_fails : bool }.
+
+Definition with_chain (d : domain) (c : N) : domain :=
+  {| d_name := d_name d; d_version := d_version d; d_chain := c; d_contract := d_contract d |}.
+
+Section Hist.
+  Variable H : list N -> list N.
+
+  Definition want_of (q : request) : list N := digest H (q_dom q) (q_batch q).
+
+  (* as coded *)
+  Definition model_answer (q : request) : answer :=
+    if q_rpc_fails q then AErr else ADigest (want_of q).
+
+  (* (reference digest, answer) per request; requests to several objects may be interleaved *)
+  Definition model_hist (qs : list request) : list (list N * answer) :=
+    map (fun q => (want_of q, model_answer q)) qs.
+
+  (* NOT the code: ONE object that asks for the chain id once (sync.Once) and keeps it in a field; the error
+     of that one call is returned to the request that made it, every later request uses the field - 0 when
+     the call had failed.  State: None = not asked yet, Some c = the kept chain id.  Kept to state what goes
+     wrong with it (C02_once_cache_refuted) and when nothing shows (C02_once_cache_healthy_first). *)
+  Definition once_step (st : option N) (q : request) : option N * answer :=
+    match st with
+    | None => if q_rpc_fails q then (Some 0, AErr) else (Some (d_chain (q_dom q)), ADigest (want_of q))
+    | Some c => (Some c, ADigest (digest H (with_chain (q_dom q) c) (q_batch q)))
+    end.
+
+  Fixpoint once_hist (st : option N) (qs : list request) : list (list N * answer) :=
+    match qs with
+    | [] => []
+    | q :: r => let '(st', a) := once_step st q in (want_of q, a) :: once_hist st' r
+    end.
+End Hist.
